@@ -225,12 +225,22 @@ def from_dataset(
         MapDataset(_pickle.loads)
 
     """
+    items = []
     try:
-        items = list(examples.items())
+        for item in examples.items():
+            items.append(item)
     except (ItemsNotDefined, NotImplementedError):
         # NotImplementedError: a dataset (e.g. a slice) asked an input
         # without keys for its keys.
-        return from_list(list(examples),
+        if items and examples.indexable:
+            # The refusal came late (e.g. from the second part of a
+            # concatenation): Don't evaluate the examples again that are
+            # already there.
+            values = list(map(operator.itemgetter(1), items))
+            values += [examples[i] for i in range(len(values), len(examples))]
+        else:
+            values = list(examples)
+        return from_list(values,
                          immutable_warranty=immutable_warranty, name=name)
     else:
         new = dict(items)
